@@ -87,6 +87,22 @@ def cases(draw, procs):
             m = spec['modules'][draw(st.integers(0, len(spec['modules']) - 1))]
             m.setdefault('acts', []).append(['in_child', ['raise', draw(st.sampled_from(IMPORT_FAILS[:4]))]])
     spec.setdefault('child_stderr', {'layer': '\0none'})
+    # --- selection options: what went wrong is read from the trace (tests that really ran, hooks that really raised), so
+    # any filter may be combined; a module that cannot be imported counts whatever the test/level/layer filters say
+    if fault['kind'] != 'spawn' and draw(st.integers(0, 2)) == 0:
+        tnames = sorted({t['n'] for t in tests})
+        sel = draw(st.sampled_from(['test', 'test', 'only_level', 'at_level', 'layer', 'unit']))
+        if sel == 'test':
+            base = st.sampled_from(tnames + ['test_[a-c]$', 'TC1', 'zzz'])
+            opts['test'] = draw(st.lists(st.one_of(base, base.map(lambda p: '!' + p)), min_size=1, max_size=2))
+        elif sel == 'only_level':
+            opts['only_level'] = draw(st.sampled_from([1, 2]))
+        elif sel == 'at_level':
+            opts['at_level'] = draw(st.sampled_from([0, 1, 3]))
+        elif sel == 'layer':
+            opts['layer'] = draw(common.layer_pattern_strategy([L['name'] for L in spec['layers']] + ['UnitTests']))
+        else:
+            opts['unit' if draw(st.booleans()) else 'non_unit'] = True
     driver = draw(st.sampled_from(['inproc', 'inproc', 'cli']))
     if fault['kind'] == 'spawn':
         driver = 'inproc'
@@ -162,6 +178,9 @@ def layers_left_for_subprocesses(case, spec, w, run):
 def oracle(case, spec, run):
     w = traceana.World(spec)
     labels = [case['driver'], 'v%d' % case['opts']['verbose'], 'fault:' + case['fault']['kind']]
+    for k in ('test', 'only_level', 'at_level', 'layer', 'unit', 'non_unit'):
+        if case['opts'].get(k) not in (None, False, []):
+            labels.append('filter:' + k)
     if case['opts'].get('j'):
         labels.append('j%d' % case['opts']['j'])
     viol = []
